@@ -123,7 +123,7 @@ Definition roundtrip (cm : callmode) (v : value) : option dvalue :=
 (* the expected image of a value *)
 Definition inj_exp (e : experiment) : dexp :=
   mkdexp (Some (e_name e)) (e_moi e) (e_nher e) (e_input e) (e_noise e) (e_filter e) (e_post e) (e_in e) (e_out e)
-    (e_dets e) (map (fun oc => (fst oc, inj (snd oc))) (e_comps e)).
+    (e_dets e) (map (fun oc => (fst oc, inj (snd oc))) (e_comps e)) (e_hnum e).
 Fixpoint inj_value (v : value) : dvalue :=
   match v with
   | VCircuit c => DVCircuit (inj (wrap c)) | VComponent c => DVComponent (inj c) | VExperiment e => DVExperiment (inj_exp e)
